@@ -25,7 +25,7 @@ lexed as one variable token (`parseVar_good`), variables are inert in `fold` lik
 fires without an operator, comma or parenthesis between them), and **no key over `{n,1,v}` is in the blacklist**
 (the table fact now covers the three classes).
 
-**Also proved (`sentence_not_sqli`, `sentence3_not_sqli`, `enumeration_not_sqli`, `ones_not_sqli`, `txt_not_sqli`): two of
+**Also proved (`sentence_not_sqli`, `sentence3_not_sqli`, `enumeration_not_sqli`, `ones_not_sqli`, `scientific_not_sqli`, `benign_concat_not_sqli`, `txt_not_sqli`): two of
 the three punctuated-sentence families and comma-separated enumerations of any length.** `,` `?` and `: ` are tokens of their own classes; a word or number with a trailing dot is one bareword / one
 number; among tokens of the classes `{n,1,v,',','?',':'}` the only fold rule that can fire is `x , y` (drop two
 tokens), which keeps the window benign; and **no key over these six classes is in the blacklist** (table fact).
@@ -207,6 +207,46 @@ theorem scientific_not_sqli (a b m x sg : Bytes) (e : UInt8) (ha : (Word a ∧ N
   rw [List.append_nil] at tb
   have tm := Txt.sci (w := m ++ e :: (sg ++ x)) ⟨m, x, e, sg, rfl, hm, hx, he, hs⟩ (Or.inr ⟨_, rfl⟩) (Txt.space tb)
   exact Txt.word ga (Or.inr ⟨_, rfl⟩) (Txt.space tm)
+
+/-- non-vacuity: the conclusion on `rate 12e-3 today` is what the kernel computes -/
+example : (match isSQLi (bs "rate 12e-3 today") with | .ok (false, []) => true | _ => false) = true := by
+  decide +kernel
+
+theorem sep_append {r : Bytes} (h : Sep r) (b : Bytes) : Sep (r ++ 32 :: b) := by
+  rcases h with rfl | ⟨r', rfl⟩
+  · exact Or.inr ⟨b, rfl⟩
+  · exact Or.inr ⟨r' ++ 32 :: b, rfl⟩
+
+/-- **benign texts compose**: two texts of the grammar joined by a space form a text of the grammar -/
+theorem txt_append_space : ∀ {a : Bytes}, Txt a → ∀ {b : Bytes}, Txt b → Txt (a ++ 32 :: b)
+  | _, .nil, b, hb => Txt.space hb
+  | _, .space hr, b, hb => Txt.space (txt_append_space hr hb)
+  | _, .word (w := w) (r := r) hw hsep hr, b, hb => by
+    rw [List.append_assoc]; exact Txt.word hw (sep_append hsep _) (txt_append_space hr hb)
+  | _, .wordAt (w := w) (r := r) (sp := sp) hw hsp hr, b, hb => by
+    have := txt_append_space hr hb
+    rw [List.append_assoc]; exact Txt.wordAt hw hsp this
+  | _, .var (vw := vw) (r := r) hv hsep hr, b, hb => by
+    have := Txt.var hv (sep_append hsep b) (txt_append_space hr hb)
+    simpa [List.append_assoc] using this
+  | _, .dec (w := w) (r := r) hw hsep hr, b, hb => by
+    rw [List.append_assoc]; exact Txt.dec hw (sep_append hsep _) (txt_append_space hr hb)
+  | _, .sci (w := w) (r := r) hw hsep hr, b, hb => by
+    rw [List.append_assoc]; exact Txt.sci hw (sep_append hsep _) (txt_append_space hr hb)
+  | _, .dotted (w := w) (r := r) hw hsep hr, b, hb => by
+    rw [List.append_assoc]; exact Txt.dotted hw (sep_append hsep _) (txt_append_space hr hb)
+  | _, .dottedAt (w := w) (r := r) (sp := sp) hw hsp hr, b, hb => by
+    have := txt_append_space hr hb
+    rw [List.append_assoc]; exact Txt.dottedAt hw hsp this
+  | _, .numAt (w := w) (r := r) (sp := sp) hw hsp hr, b, hb => by
+    have := txt_append_space hr hb
+    rw [List.append_assoc]; exact Txt.numAt hw hsp this
+  | _, .punct (p := p) (r := r) hp hr, b, hb => Txt.punct hp (txt_append_space hr hb)
+  | _, .colon (r := r) hr, b, hb => Txt.colon (txt_append_space hr hb)
+
+/-- two benign texts joined by a space are not SQLi -/
+theorem benign_concat_not_sqli (a b : Bytes) (ha : Txt a) (hb : Txt b) : isSQLi (a ++ 32 :: b) = .ok (false, []) :=
+  isSQLi_txt _ (txt_append_space ha hb)
 
 /-- items joined by `, ` -/
 def commaList : List Bytes → Bytes
